@@ -303,8 +303,10 @@ static int c11_whole(const int * keys, int n, int mode, char * msg, size_t msz) 
     if (write(pfd[1], m, strlen(m) + 1) < 0) {}
     _exit(r);
   }
-  close(pfd[1]); ssize_t k = read(pfd[0], msg, msz - 1); if (k < 0) k = 0; msg[k] = 0; close(pfd[0]);
-  int st = 0; waitpid(pid, &st, 0);
+  close(pfd[1]);
+  int st = 0; int hung = sq_wait_child(pid, 90, &st);
+  ssize_t k = read(pfd[0], msg, msz - 1); if (k < 0) k = 0; msg[k] = 0; close(pfd[0]);
+  if (hung) { snprintf(msg, msz, "thread end hangs"); return 1; }
   if (WIFSIGNALED(st)) { snprintf(msg, msz, "process crashed (signal %d) at thread end", WTERMSIG(st)); return 1; }
   if (WIFEXITED(st) && WEXITSTATUS(st) > 1) { snprintf(msg, msz, "sanitizer abort at thread end (status %d)", WEXITSTATUS(st)); return 1; }
   return WIFEXITED(st) ? WEXITSTATUS(st) : 1;
